@@ -280,6 +280,12 @@ func suiteMutate(tier string, seed uint64, model string) *Report {
 			default:
 				return ""
 			}
+			// Remove under the inclusive rule with parents that contain one another (a slice next to a
+			// descent): removing inside an element that is removed as well changes nothing, so the
+			// variant's result is definite although it is flagged as not comparable
+			if hasSlice && c.op == 2 && !one && !varComparable && got == varBody {
+				return label
+			}
 			// the variant is decisive when it is comparable, or when it says nothing is selected and
 			// the implementation indeed left the data unchanged
 			if !varComparable && !(got == Show(c.data) && (varBody == got || strings.Contains(" ; "+varBody+" ; ", " ; "+got+" ; "))) {
